@@ -225,17 +225,18 @@ PROPS["C14"] = {
     "rule": "random f32/f64 streams cut two ways (0-length, granule, maximal and random blocks), all ten tap sets, cascade depths 0..=4, in place and separate",
 }
 PROPS["C15"] = {
+    "modules": ["C15", "C15spec"],
     "families": ["hbf"],
     "n_quick": 3000, "n_thorough": 30000,
     "clauses_proved": [
         "over any commutative ring: stage output = convolution with the symmetric FIR [t0,0,t1,0,...,1,...,0,t0], decimated by two and halved / applied to the zero-stuffed input, with explicit index alignment (hbf_fir_shape, hbfdec_is_decimated_convolution, hbfint_is_convolution_of_zero_stuffed, symfir_window_sum, hbf_fir_sum_three_parts)",
         "after response_length() outputs of zero input every output is zero, stages and cascades, from any state (hbfdec_zero_after_response_length, hbfint_zero_after_response_length, *_cascade_zero_after_response_length, *_class versions for IEEE signed zeros)",
+        "PUBLISHED SPEC for the exact (binary32) tap values over the rationals/reals, every depth 1..=4, both directions: taps are exactly the f32 values of the source literals (hbf_taps_are_binary32); the literal buffer model's impulse response is hbfCascadeFir (hbf_cascade_impulse_response_int/_dec); exactly symmetric, spans response_length()+1 samples, |DC - 1| < 1e-6 (hbf_cascade_symmetric, hbf_cascade_span, hbf_cascade_dc_gain); response = pure delay x real product of stage amplitudes (hbf_cascade_response_factorisation); pass band |gain - 1| <= 2.3e-7, ripple <= 2e-6 dB <= 3e-6 dB up to 0.4; stop band <= 1e-7 = -140 dB <= -138 dB from 0.6 to the high-rate Nyquist incl. all images (hbf_cascade_passband_ripple, hbf_cascade_stopband, hbf_cascade_spec_full_holds; tightness hbf_cascade_bounds_tight) -- certified by a kernel-run reflective interval checker on exact Chebyshev recurrences",
     ],
     "clauses_explored": [
-        "cascade impulse response (both directions, depths 1..=4): exactly symmetric, spans exactly response_length()+1 samples, unity DC gain, <= 3e-6 dB ripple to 0.4, >= 138 dB beyond 0.6 (dense frequency grid on the implementation's impulse response)",
-        "stage = FIR to float rounding on the real f32 code",
+        "the same numbers for the running f32 code (rounding of the f32 arithmetic is outside the theorem): impulse response of the implementation on a dense frequency grid; stage = FIR to float rounding",
     ],
-    "level_text": "The FIR equivalence and the zero-after-response-length clause are theorems (ring / abstract carrier); the published frequency-domain numbers are a supremum over a continuous band of a long trigonometric polynomial with f32 taps and are explored only.",
+    "level_text": "The FIR equivalence, zero-after-response-length and the complete published specification (symmetry, span, DC gain, pass-band ripple, stop-band attenuation incl. images) for the exact tap values are theorems; what remains explored-only is the effect of f32 rounding in the running code.",
     "level_note": "Model as C14. The tap values are constants of the crate; they are dumped at run time and used by the model driver.",
     "rule": "frequency grid 2^12 (2^15 thorough) points over 0..high-rate Nyquist per cascade depth and direction; FIR check on random streams for all ten tap sets",
 }
@@ -321,7 +322,7 @@ PROPS["C19"] = {
 }
 PROPS["C20"] = {
     "families": ["osub", "satscale", "unwrap", "accu", "dsm", "pll", "lowpass", "cic_dec", "cic_int", "num", "biquad",
-                 "cossin", "atan2", "complex", "lockin", "rpll", "sweep", "hbf", "fbiquad", "coeff", "pid"],
+                 "cossin", "atan2", "complex", "lockin", "rpll", "sweep", "hbf", "fbiquad", "coeff", "pid", "glue"],
     "n_quick": 20000, "n_thorough": 200000,
     "clauses_proved": [
         "per entry point: the checked model returns ok on the documented domain (c20_cossin, c20_atan2, c20_polar, c20_abs_sqr_log2, c20_cmul, c20_cmul_complex, c20_pll, c20_rpll, c20_lowpass1, c20_saturating_scale, c20_dsm, c20_cic_interpolate, c20_macc, c20_mul_div, c20_sweep_next); CIC decimator, Unwrapper, Accu, overflowing_sub, PLL are total functions of the model (explicitly wrapping code)",
